@@ -213,15 +213,8 @@ func genStream(r *lib.Rand) streamB {
 	kind := r.Intn(100)
 	// the magic
 	switch {
-	case kind < 4:
-		ms := [][]byte{[]byte("  V2"), []byte("V1  "), []byte("  v1"), {0, 0, 0, 0}, r.Bytes(4), []byte(" V1 "), []byte("GET ")}
-		put(ms[r.Intn(len(ms))]...)
-		puts("PING\n")
-		s.expect, s.class = "E_BAD_PROTOCOL", "wrong-magic"
-		if string(s.buf[:4]) == "  V1" {
-			s.expect, s.class = "OK", "valid"
-		}
-		return s
+	case kind < 5:
+		return genMagicStream(r)
 	case kind < 7:
 		put([]byte("  V1")[:r.Intn(4)]...)
 		s.expect, s.class = "NONE", "short-magic"
@@ -265,6 +258,12 @@ func genStream(r *lib.Rand) streamB {
 		for i, n := 0, r.Intn(4); i < n; i++ {
 			t := []string{byTopic, "ht1", "heph#ephemeral"}[r.Intn(3)]
 			c := []string{"", byChan, "hc#ephemeral", byEph}[r.Intn(4)]
+			if r.Chance(12) { // the longest names that are still valid
+				t = boundaryOK[r.Intn(len(boundaryOK))]
+			}
+			if r.Chance(12) {
+				c = boundaryOK[r.Intn(len(boundaryOK))]
+			}
 			verb := []string{"REGISTER", "REGISTER", "UNREGISTER", "PING"}[r.Intn(4)]
 			switch {
 			case verb == "PING":
@@ -303,6 +302,9 @@ func genStream(r *lib.Rand) streamB {
 		}
 	case mal < 42:
 		bad := []string{"bad$", "*", strings.Repeat("b", 65), "#ephemeral", "t\x00", "t\xc2\xa0x", "é", "t#ephemeral#ephemeral", "a b"}[r.Intn(9)]
+		if r.Chance(40) { // just beyond the length limit, without and with the suffix
+			bad = boundaryBad[r.Intn(len(boundaryBad))]
+		}
 		verb := []string{"REGISTER", "UNREGISTER"}[r.Intn(2)]
 		if bad == "a b" { // "REGISTER  a": empty topic
 			puts(verb + "  a\n")
@@ -315,6 +317,9 @@ func genStream(r *lib.Rand) streamB {
 		}
 	case mal < 52:
 		bad := []string{"bad$", "*", strings.Repeat("c", 65), "#ephemeral", "c\x7f", "c;"}[r.Intn(6)]
+		if r.Chance(40) {
+			bad = boundaryBad[r.Intn(len(boundaryBad))]
+		}
 		puts([]string{"REGISTER", "UNREGISTER"}[r.Intn(2)] + " " + byTopic + " " + bad + "\n")
 		s.expect, s.class = "E_BAD_CHANNEL", "bad-channel"
 		if !identified {
@@ -445,8 +450,10 @@ var httpPaths = []string{"/ping", "/info", "/debug", "/lookup", "/topics", "/cha
 	"/debug/pprof", "/debug/pprof/cmdline", "/debug/pprof/symbol", "/debug/pprof/heap", "/debug/pprof/goroutine",
 	"/debug/pprof/block", "/debug/pprof/threadcreate",
 	"/nope", "/lookup/", "/TOPICS", "/topic", "/", "/topic/create/", "/channel", "/debug/"}
-var httpTopics = []*string{nil, sp(""), sp(byTopic), sp("new1"), sp("bad$"), sp("*"), sp(strings.Repeat("t", 65)), sp("heph#ephemeral")}
-var httpChans = []*string{nil, sp(""), sp(byChan), sp("newc"), sp("bad$"), sp(strings.Repeat("c", 65)), sp("*")}
+var httpTopics = []*string{nil, sp(""), sp(byTopic), sp("new1"), sp("bad$"), sp("*"), sp(strings.Repeat("t", 65)), sp("heph#ephemeral"),
+	sp(plainName(64)), sp(ephName(64)), sp(ephName(65)), sp(ephName(74))}
+var httpChans = []*string{nil, sp(""), sp(byChan), sp("newc"), sp("bad$"), sp(strings.Repeat("c", 65)), sp("*"),
+	sp(plainName(64)), sp(ephName(64)), sp(ephName(65)), sp(ephName(74))}
 var httpNodes = []*string{nil, sp("bystander:4151"), sp("x:1"), sp("h1:4151")}
 
 // expectedStatus: the HTTP status rules of the API for requests whose arguments are
@@ -460,14 +467,19 @@ func expectedStatus(a actIn) int {
 		if a.RawQ != "" || bad(a.QT) {
 			return 400
 		}
+		return 200
 	case post && (a.Path == "/channel/create" || a.Path == "/channel/delete"):
 		if a.RawQ != "" || bad(a.QT) || bad(a.QC) {
 			return 400
 		}
+		if a.Path == "/channel/create" {
+			return 200
+		} // delete: 200 or 404
 	case post && a.Path == "/topic/delete":
 		if a.RawQ != "" || bad(a.QT) { // the wildcard is refused since the fix of F14
 			return 400
 		}
+		return 200
 	case get && (a.Path == "/lookup" || a.Path == "/channels"):
 		if a.RawQ != "" || a.QT == nil {
 			return 400
@@ -476,6 +488,7 @@ func expectedStatus(a actIn) int {
 		if a.RawQ != "" || bad(a.QT) || a.QN == nil {
 			return 400
 		}
+		return 200
 	}
 	return 0
 }
@@ -497,6 +510,14 @@ func genHTTP(r *lib.Rand) actIn {
 	a.QT = httpTopics[r.Intn(len(httpTopics))]
 	a.QC = httpChans[r.Intn(len(httpChans))]
 	a.QN = httpNodes[r.Intn(len(httpNodes))]
+	if r.Chance(10) {
+		all := boundaryNames()
+		a.QT = sp(all[r.Intn(len(all))])
+	}
+	if r.Chance(10) {
+		all := boundaryNames()
+		a.QC = sp(all[r.Intn(len(all))])
+	}
 	if adminRoutes[a.Path] {
 		if r.Chance(45) {
 			// names that ARE registered at this point - by the bystander, the visitor, a hostile
@@ -731,6 +752,10 @@ type daemon struct {
 	cmd      *exec.Cmd
 	tcp, web string
 	done     chan struct{}
+	// after done is closed: how the process ended and the last lines it wrote to stderr (a
+	// Go panic prints its message and the goroutine traces there)
+	exitErr string
+	tail    []string
 }
 
 var listenRe = regexp.MustCompile(`(TCP|HTTP): listening on (\S+)`)
@@ -755,13 +780,23 @@ func startDaemon() *daemon {
 	go func() {
 		sc := bufio.NewScanner(stderr)
 		sc.Buffer(make([]byte, 1<<20), 1<<20)
+		var tail []string
 		for sc.Scan() {
 			if m := listenRe.FindStringSubmatch(sc.Text()); m != nil {
 				addrs <- [2]string{m[1], m[2]}
 			}
+			if t := sc.Text(); strings.HasPrefix(t, "panic:") || strings.HasPrefix(t, "fatal error:") || strings.Contains(t, "[signal ") ||
+				(len(tail) > 0 && len(tail) < 12) {
+				tail = append(tail, t) // the panic message and the first frames of the trace
+			}
 		}
 		io.Copy(io.Discard, stderr)
-		cmd.Wait()
+		if err := cmd.Wait(); err != nil {
+			d.exitErr = err.Error()
+		} else {
+			d.exitErr = "exit status 0"
+		}
+		d.tail = tail
 		close(d.done)
 	}()
 	deadline := time.After(30 * time.Second)
@@ -785,6 +820,17 @@ func startDaemon() *daemon {
 func (d *daemon) stop() {
 	d.cmd.Process.Kill()
 	<-d.done
+}
+
+// waitExit: the process has ended within the given time (a dying Go process needs a moment
+// to print its traces; this waits for the exact event, not for a fixed time).
+func (d *daemon) waitExit(limit time.Duration) bool {
+	select {
+	case <-d.done:
+		return true
+	case <-time.After(limit):
+		return false
+	}
 }
 
 func (d *daemon) exited() bool {
@@ -853,6 +899,7 @@ func runSession(s sessIn) lib.Case {
 	d := startDaemon()
 	defer d.stop()
 	hc := newHTTP(d.web)
+	hc.soft = true // a view that cannot be taken is an observation about the daemon (see below)
 	defer hc.close()
 	n := newNamer()
 	pm := peerMap{}
@@ -860,6 +907,7 @@ func runSession(s sessIn) lib.Case {
 	if err != nil {
 		lib.Fatalf("dial bystander: %v", err)
 	}
+	by.soft = true
 	defer by.c.Close()
 	pm[by.addr] = 0
 	byOpen := true
@@ -881,6 +929,8 @@ func runSession(s sessIn) lib.Case {
 	var acts []string
 	tagc := map[string]int{}
 	dead := false
+	viewFailure := ""
+	hungConn := false
 	var lastDebug []debugObs
 	var lastTopics []string
 	topicState := func(t *string) string {
@@ -939,6 +989,7 @@ func runSession(s sessIn) lib.Case {
 				if closed {
 					byOpen = false
 				}
+				hungConn = hungConn || by.hung
 			}
 			action = "(IAOp " + opCoq + ")"
 			result = "(ROp " + coqOut(cl) + ")"
@@ -952,8 +1003,15 @@ func runSession(s sessIn) lib.Case {
 			if v == nil { // a fresh connection (also for a command that will be refused on it)
 				var err error
 				if v, err = dial(d.tcp, next, []byte("  V1")); err != nil {
-					lib.Fatalf("dial visitor: %v", err)
+					// the daemon no longer accepts connections: the command gets no answer and the
+					// liveness check below records what happened to the daemon
+					action = fmt.Sprintf("(IAOp (IPing %d))", next)
+					result = "(ROp " + coqOut("NOANSWER") + ")"
+					tagc["visitor:"+o.K+":NOCONNECTION"]++
+					next++
+					break
 				}
+				v.soft = true
 				visitors[o.Slot] = v
 				pm[v.addr] = next
 				next++
@@ -998,6 +1056,7 @@ func runSession(s sessIn) lib.Case {
 			cl := ""
 			if o.K == "disconnect" {
 				v.closeWait() // returns when the server has run its exit path and closed
+				hungConn = hungConn || v.hung
 				gone = v.addr
 				delete(visitors, o.Slot)
 			} else {
@@ -1010,6 +1069,7 @@ func runSession(s sessIn) lib.Case {
 					gone = v.addr
 					delete(visitors, o.Slot)
 				}
+				hungConn = hungConn || v.hung
 			}
 			action = "(IAOp " + opCoq + ")"
 			result = "(ROp " + coqOut(cl) + ")"
@@ -1074,10 +1134,24 @@ func runSession(s sessIn) lib.Case {
 		default:
 			lib.Fatalf("unknown action kind %q", a.K)
 		}
+		// liveness: the process is there and answers /ping before AND after the views are taken,
+		// and every view can be fetched.  A daemon that a hostile stream has just killed may still
+		// answer one or two requests while it prints its traces: whatever fails on the way, the
+		// action is recorded with alive = false (never a harness error), with how the process ended.
 		alive := d.alive(hc)
 		v := emptyView(n)
 		if alive {
-			v = view()
+			ok, why := hc.tryViews(func() { v = view() })
+			if ok && !d.alive(hc) {
+				ok, why = false, "/ping failed after the views"
+			}
+			if hungConn {
+				ok, why = false, "a well-behaved connection was not closed by the daemon within "+ioTimeout.String()
+			}
+			if !ok {
+				alive, v, viewFailure = false, emptyView(n), why
+				d.waitExit(5 * time.Second)
+			}
 		}
 		acts = append(acts, fmt.Sprintf("(imkAct %s %s %s %s %s %s)", action, result, lib.CoqBool(alive), expect, expectStatus, v))
 		if !alive {
@@ -1094,6 +1168,17 @@ func runSession(s sessIn) lib.Case {
 			tl = append(tl, t)
 		}
 	}
-	return lib.Case{Name: s.Name, Coq: body, Input: s, Tags: tl, Nontrivial: true,
-		Obs: map[string]interface{}{"actions": len(acts), "daemon_died": dead}}
+	obs := map[string]interface{}{"actions": len(acts), "daemon_died": dead}
+	if dead {
+		obs["killed_by_action"] = s.Acts[len(acts)-1]
+		if viewFailure != "" {
+			obs["first_failure"] = viewFailure
+		}
+		if d.waitExit(5 * time.Second) {
+			obs["daemon_exit"], obs["daemon_stderr"] = d.exitErr, d.tail
+		} else {
+			obs["daemon_exit"] = "still running, not answering"
+		}
+	}
+	return lib.Case{Name: s.Name, Coq: body, Input: s, Tags: tl, Nontrivial: true, Obs: obs}
 }
